@@ -215,7 +215,7 @@ func init() {
 		level: "exploration",
 		rule: "patterns: (1) all syntax trees of the documented pattern grammar up to a size bound over atoms {a,b,[ab]} x 10 quantifier forms, (1b) 6 atoms incl. '.', [^a] x all 28 quantifier forms (lazy or not), " +
 			"(2) every class, POSIX class, escaped metacharacter, printable literal and \\x form individually in 8 contexts, bare / in [] / in [^], (3) concatenations with nullable operands, " +
-			"(4) every predefined $NAME pattern, (5) seeded random trees to depth 4, (6) the start-of-string marker ^ in front of plain literals and of every 61st other pattern. Each pattern is decided by FULL language equality (BFS over the product of the reference automaton and each " +
+			"(4) every predefined $NAME pattern, (4b) repetition counts that no machine integer can hold (2^63 .. 2^128+1) in 6 quantifier forms: refused, or an automaton that is right on a^0..a^69 (probed in a memory-capped child process), (5) seeded random trees to depth 4, (6) the start-of-string marker ^ in front of plain literals and of every 61st other pattern. Each pattern is decided by FULL language equality (BFS over the product of the reference automaton and each " +
 			"emerge stage: NFA, ToDFA, Minimize, EliminateDeadStates, ReindexStates, and Spec.DFA() end-to-end), not by sampling strings. non-trivial = reference language is not {} and not {eps}; distinct by pattern text.",
 		assumptions: []string{
 			"reference meaning of each construct is the harness' transcription of docs/5-definitions.md (R2); '.' and negation range over U+0001..U+007F; \\s = [ \\t\\n\\r\\f]",
@@ -282,6 +282,42 @@ func runC02(c *ctx) {
 	}
 	for k := range exh {
 		c.exhaustive(k, true)
+	}
+	// repetition counts that no int can hold: the pattern may be refused, but if it is accepted the automaton must not
+	// be that of some other count (a wrapped-around number). Decided on the strings a^k, k < 70, in a memory-capped child.
+	if c.shard == 2%c.of {
+		type huge struct {
+			p    string
+			want func(k int) bool // is a^k in the language?
+		}
+		none := func(int) bool { return false }
+		var hs []huge
+		for _, n := range []string{"9223372036854775808", "9223372036854775809", "18446744073709551616", "18446744073709551617", "18446744073709551619", "36893488147419103235", "99999999999999999999999", "340282366920938463463374607431768211457"} {
+			hs = append(hs, huge{"a{" + n + "}", none}, huge{"a{" + n + ",}", none}, huge{"a{" + n + "," + n + "}", none},
+				huge{"a{2," + n + "}", func(k int) bool { return k >= 2 }}, huge{"a{0," + n + "}", func(k int) bool { return true }}, huge{"(a{" + n + "})?", func(k int) bool { return k == 0 }})
+		}
+		for _, h := range hs {
+			c.eval()
+			c.guard("huge-count " + h.p)
+			st, bits, out := patProbe(h.p)
+			c.count("unrepresentable_repetition_counts_"+st, 1)
+			switch st {
+			case "rejected":
+				c.nontrivial(h.p)
+			case "accepted":
+				c.nontrivial(h.p)
+				for k := 0; k < len(bits); k++ {
+					if (bits[k] == '1') != h.want(k) {
+						c.violate(violation{Case: "huge-count", Input: h.p, Observed: fmt.Sprintf("accepted, and the automaton %s the string of %d a's", accWord(bits[k] == '1'), k),
+							Expected: fmt.Sprintf("refused, or an automaton that %s it (the count does not fit a machine integer; it must not wrap around)", accWord(h.want(k)))})
+						break
+					}
+				}
+			default:
+				c.inconclusive("huge-count probe died (C14's business)")
+				c.note("huge-count probe %q: %s %s", h.p, st, out)
+			}
+		}
 	}
 	// hand-written examples for the predefined patterns (all shards would repeat them; shard 0 only)
 	if c.shard == 0 {
